@@ -74,6 +74,10 @@ Definition prim_sig (p : prim) : list ty * ty :=
   | PLEmptyQ b => ([TList b], TBool)
   | PLEq b | PLNe b => ([TList b; TList b], TBool)
   | PLNth b => ([TList b; TMI], ty_of_bty b)
+  | PBox d n => ([ty_of_nty n], TBox d n)
+  | PUnbox d n => ([TBox d n], ty_of_nty n)
+  | PBump d n | PTwice d n => ([TBox d n], TBox d n)
+  | PScale d n => ([TBox d n; ty_of_nty n], TBox d n)
   end.
 
 (* ---- overload resolution ---- *)
